@@ -2,7 +2,7 @@
 # try_seed.sh <seed> [tier] [harness...] : like run_seed.sh but on a private scratch worktree of /repo's HEAD (/tmp/repotest), so /repo stays untouched
 S=$1; T=${2:-quick}; shift; shift
 D=/verif/seeded/$S; P=$(python3 -c "import json;print(json.load(open('$D/meta.json'))['property'])")
-W=/tmp/repotest
+W=${TRY_W:-/tmp/repotest}
 [ -d $W ] || git -C /repo worktree add --detach $W HEAD >/dev/null 2>&1
 git -C $W checkout -q --detach $(git -C /repo rev-parse HEAD) 2>/dev/null; git -C $W checkout -- . ; git -C $W apply $D/patch.diff || exit 2
 cd /verif && VERIF_REPO=$W VF_NO_EVIDENCE=1 VERIF_TIER=$T ./vf check $P "$@" > /tmp/tryseed-$S.log 2>&1; rc=$?
